@@ -15,6 +15,10 @@ def E(e):
     return ["stm", ["expr", e]]
 
 
+def ret_stm(st):
+    return ["stm", ["return", st]]
+
+
 CORPUS = [
     ("never-index-chain", ["C03"], [["set", "x", ["expr", ["at", ["at", ["array"], I(0)], I(0)]]], E(V("x"))]),
     ("never-index-break", ["C03"], [["stm", ["loop", ["block", ["set", "x", "break"], ["set", "y", ["expr", ["at", V("x"), I(0)]]]]]], E(I(1))]),
@@ -174,6 +178,57 @@ CORPUS = [
          ["tup", ["multi", "int", "float"], ["multi", "int", "float"]], [ret(["tuple", ["post", V("it"), "$+"], ["post", V("it"), "$*"]])]],
         E(["tuple", ["call", V("f"), ["post", ["array"], "~"]],
            ["call", V("f"), ["post", ["array", I(2), I(3)], "~"]]])]),
+    # S27 (second form): inside a closure `recreate` narrows the captured iterator to its run-time type
+    ("sum-captured-empty-iter-at-float", ["C01", "C02", "C04", "C11"], [
+        ["fndecl", "g", [["it", ["fun", [], ["tup", "bool", "float"]]]], "float", [
+            ["fndecl", "h", [], "float", [ret(["post", V("it"), "$+"])]],
+            ret(["call", V("h")])]],
+        E(["bin", "+", ["call", V("g"), ["post", ["array"], "~"]], ["c", ["f", 4609434218613702656]]])]),
+    ("product-captured-empty-iter-at-float", ["C01", "C02", "C04", "C11"], [
+        ["fndecl", "g", [["it", ["fun", [], ["tup", "bool", "float"]]]], "float", [
+            ["fndecl", "h", [], "float", [ret(["post", V("it"), "$*"])]],
+            ret(["call", V("h")])]],
+        E(["bin", "+", ["call", V("g"), ["post", ["array"], "~"]], ["c", ["f", 4609434218613702656]]])]),
+    ("sum-captured-empty-iter-at-union", ["C01", "C02", "C11"], [
+        ["fndecl", "g", [["it", ["multi", ["fun", [], ["tup", "bool", "float"]], ["fun", [], ["tup", "bool", "string"]]]]],
+         ["multi", "float", "string"], [
+            ["fndecl", "h", [], ["multi", "float", "string"], [ret(["post", V("it"), "$+"])]],
+            ret(["call", V("h")])]],
+        E(["tuple", ["call", V("g"), ["post", ["array"], "~"]], ["call", V("g"), ["post", ["array", S("a")], "~"]]])]),
+    ("sum-narrowed-union-with-diverging-member", ["C01", "C02"], [
+        ["fndecl", "diverge", [], "never", [ret(["call", V("diverge")])]],
+        ["fndecl", "empty", [], ["tup", "bool", "float"], [ret(["tuple", B(False), ["c", ["f", 0]]])]],
+        ["fndecl", "g", [["x", ["fun", [], ["tup", "bool", "float"]]], ["z", ["fun", [], ["tup", "bool", "float"]]],
+                         ["c", ["mut", "bool"]]], "float", [
+            ["fndecl", "h", [], "float", [
+                ["set", "y", ["if", ["pre", "deref", V("c")], ["block", E(V("x"))], ["block", E(V("z"))]]],
+                ret(["post", ["post", ["post", V("y"), "$]"], "~"], "$+"])]],
+            ret(["call", V("h")])]],
+        ["set", "r", ["expr", ["call", V("g"), V("diverge"), V("empty"), ["mut", None, B(False)]]]],
+        E(["bin", "+", V("r"), ["c", ["f", 4609434218613702656]]])]),
+    # S13e / S13f: `~` re-types the iterator at the RUN-TIME element type of the array, `@` at the
+    # run-time result type of the mapper (variants of S13a / S13b at honest static types)
+    ("iter-of-empty-array-at-int", ["C01", "C02"], [
+        ["fndecl", "g", [["a", ["arr", "int"]]], "int", [
+            ret(["bin", "+", ["tacc", ["call", ["post", V("a"), "~"]], 1], I(1)])]],
+        E(["call", V("g"), ["array"]])]),
+    ("map-retyped-at-run-time-result", ["C01", "C02"], [
+        ["fndecl", "it", [], ["tup", "bool", ["multi", "int", "string"]], [ret(["tuple", B(False), I(0)])]],
+        ["fndecl", "f", [["x", ["multi", "int", "string"]]], "string", [ret(S("s"))]],
+        ["fndecl", "h", [["m", ["fun", [["multi", "int", "string"]], ["multi", "int", "string"]]]], "string", [
+            ret_stm(["match", ["bin", "@", V("it"), V("m")],
+                     ["atype", "s", ["fun", [], ["tup", "bool", "string"]],
+                      ["block", E(["bin", "+", ["tacc", ["call", V("s")], 1], S("x")])]],
+                     ["aother", ["block", E(S("other"))]]])]],
+        E(["call", V("h"), V("f")])]),
+    # a `match` without arms (or whose arms do not cover) on a scrutinee typed `!` is rejected, not a panic
+    ("armless-match-on-never", ["C03", "C12"], [["set", "x", ["match", ["at", ["array"], I(0)]]]]),
+    ("armless-match-on-never-in-function", ["C03", "C12"], [
+        ["fndecl", "f", [["a", ["arr", "never"]]], "int", [ret_stm(["match", ["at", V("a"), I(0)]])]]]),
+    ("armless-match-on-int", ["C03", "C12"], [["set", "x", ["match", I(1)]]]),
+    ("armless-match-statement-on-never", ["C03", "C12"], [["stm", ["match", ["at", ["array"], I(0)]]], E(I(1))]),
+    ("match-on-never-with-arm", ["C03", "C12"], [
+        ["set", "x", ["match", ["at", ["array"], I(0)], ["atype", "v", "int", ["block", E(V("v"))]]]]]),
     ("sum-never-missing-return", ["C01", "C02"], [
         ["fndecl", "f", [], "int", [["set", "x", ["expr", ["post", ["post", ["array"], "~"], "$+"]]]]],
         E(["bin", "+", ["call", V("f")], I(1)])]),
